@@ -1,6 +1,7 @@
 package smtp
 
 import (
+	"crypto/tls"
 	"errors"
 	"io"
 )
@@ -330,4 +331,61 @@ func verif_C03_run() {
 	}
 	verifAssert(lg.lines == 0, "C03.no-logged-errors")
 	verifReach("C03.end")
+}
+
+// verif_C03_starttls_stub: STARTTLS ends the whole session. A transaction open
+// at upgrade time must not survive: after the inside-TLS EHLO, RCPT / DATA /
+// BDAT without a new MAIL are refused and cause no callback.
+func verif_C03_starttls_stub() {
+	verifPreemptBound(0)
+	pre := verifChoice(3) // 0 greeted, 1 MAIL, 2 MAIL+RCPT
+	be := &vbackend{}
+	s, _ := verifServer(be)
+	s.TLSConfig = &tls.Config{}
+	plain := "EHLO p.example\r\n"
+	if pre >= 1 {
+		plain += "MAIL FROM:<early@v>\r\n"
+	}
+	if pre >= 2 {
+		plain += "RCPT TO:<r@v>\r\n"
+	}
+	plain += "STARTTLS\r\n"
+	probe := verifChoice(3)
+	helloFirst := nondetBool()
+	inside := ""
+	if helloFirst {
+		inside = "EHLO i.example\r\n"
+	}
+	inside += []string{"RCPT TO:<late@v>\r\n", "DATA\r\n", "BDAT 1 LAST\r\nx"}[probe]
+	inside += "NOOP\r\n"
+	vc := &vconn{in: []byte(plain), final: io.EOF, tlsIn: []byte(inside), tlsFinal: io.EOF}
+	conn := newConn(vc, s)
+	s.handleConn(conn)
+	verifSettle()
+	ireps, wf := verifParseReplies(vc.tlsOut)
+	k := 0
+	if helloFirst {
+		k = 1
+	}
+	verifAssert(wf && len(ireps) == k+2, "C03.starttls-inside-replies")
+	if !wf || len(ireps) != k+2 {
+		return
+	}
+	verifObserve("c03tls", pre, probe, helloFirst, ireps[k].code, len(be.trace))
+	verifAssert(ireps[k].code/100 == 5, "C03.no-transaction-survives-starttls")
+	verifAssert(ireps[k+1].code == 250, "C03.command-mode-after-refusal")
+	// after the upgrade nothing but NewSession/Logout/Reset may reach the backend
+	lo := -1
+	for i, e := range be.trace {
+		if e.kind == "Logout" && e.sess == 1 && lo < 0 {
+			lo = i
+		}
+	}
+	verifAssert(lo >= 0, "C03.starttls-logs-out")
+	if lo >= 0 {
+		for _, e := range be.trace[lo+1:] {
+			verifAssert(e.kind == "NewSession" || e.kind == "Logout" || e.kind == "Reset", "C03.no-envelope-callback-after-starttls")
+		}
+	}
+	verifReach("C03.starttls-end")
 }
